@@ -1,9 +1,19 @@
-"""C17 -- the configuration parsers never crash (zone-file part; the hosts part belongs to the hosts subsystem).
+"""C17 -- the configuration parsers and the loader never crash.
 
-Stream "zonefile" (syntax: ocaml/drv_zonefile.ml), op P:  zonefile P <text> <family>
-The impl driver (harness/src/bin_zonefile.rs) runs every case in its own thread with a 2 MiB stack under a
-60 s watchdog and flushes after every case: a panic prints "Panic", a hang "Hang", a stack overflow kills
-the driver (reported as DRIVER-DIED for exactly that case).  The oracle accepts only "Ok:..." / "Err:...".
+Three parts, all needed by the property text ("reading ANY text as a zone file or as a hosts file terminates
+with a result or an error ... a bad configuration file is reported instead of taking down start-up or a reload"):
+
+(1) zone files -- the module's main stream "zonefile" (syntax: ocaml/drv_zonefile.ml), op P:  zonefile P <text> <family>
+    The impl driver (harness/src/bin_zonefile.rs) runs every case in its own thread with a 2 MiB stack under a
+    60 s watchdog and flushes after every case: a panic prints "Panic", a hang "Hang", a stack overflow kills
+    the driver (reported as DRIVER-DIED for exactly that case).  The oracle accepts only "Ok:..." / "Err:...".
+(2) hosts files -- extra(), stream "hosts" op P (= Hosts::deserialise; ocaml/drv_hosts.ml, harness/src/bin_hosts.rs
+    with the same per-case thread / watchdog / flush loop, harness/src/vthread.rs): random Unicode text, mutations
+    of valid hosts files, NULs, lone CRs, and lines / tokens / comments / files of 10^4 .. 10^6 characters.
+(3) the loader -- extra(), stream "config" op L (ocaml/drv_config.ml, harness/src/config.rs): bad files are written
+    to disk and loaded by the real resolved::fs::load_zone_configuration (per-case 2 MiB thread as well); the
+    outcome must be None (reported), never Panic / Hang / death of the driver.
+See the comment above extra_hosts for the oracles of (2) and (3).
 """
 import os
 import threading
@@ -16,18 +26,44 @@ DRIVER = "zonefile"
 COQ_TARGETS = ["Properties/C17.vo"]
 THEOREMS = ["C17_tokenise_total", "C17_tokenise_steps_linear", "C17_parse_zone_total", "C17_insert_depth_bound",
             "C17_parsed_names_wf"]
-RULE = ("cases: random Unicode strings over structure-heavy alphabets, grammar-aware mutations of valid zone files "
+RULE = ("cases: (zone text) random Unicode strings over structure-heavy alphabets, grammar-aware mutations of valid zone files "
         "(deleted/inserted/duplicated characters, unbalanced quotes and parentheses, truncated escapes, 40-digit numbers, "
         "NULs, non-ASCII), names of 127/128 labels, very long tokens and lines (20 KB quick, 1 MB thorough); "
-        "non-trivial = distinct non-empty text")
+        "(hosts text) the C14 corpus, random Unicode over a hosts alphabet, mutations of valid hosts files, NULs, lone CRs, and "
+        "the long-input families many-names (one line of 200 / 800 / 10^4 .. 10^5 names, quick; up to 3*10^5 thorough; same or "
+        "distinct names, every separator, ended by a comment / a bad name / a non-ASCII character / '%'), lone-cr, nul, long-name, "
+        "long-comment, long-ws, long-addr (2 KB / 5 KB / 1 MB) and many-lines (500 / 10^4 / 10^5 short lines); "
+        "(loader) zone and hosts files the parser models reject -- a multi-byte character (2, 3, 4 bytes) at every distance "
+        "0..24 (quick; 0..200 thorough) after the first offending character on its line, before it (multi-byte white space, "
+        "comment inside a parenthesised entry), around an earlier harmless occurrence of the same character in a comment or "
+        "a skipped '%' line, unbalanced parentheses / quotes next to multi-byte comment text, realistic non-ASCII names, "
+        "mutated files sprinkled with multi-byte characters, binary garbage (valid and invalid UTF-8), a 100 KB file -- placed "
+        "as -z/-a file, after a good file, or inside -Z/-A directories; empty and blank files, a directory where a file should "
+        "be, a file where a directory should be, missing files, dangling links; "
+        "non-trivial = distinct non-empty text (zone, hosts) / distinct case line (loader)")
 ASSUMPTIONS = [
     "the theorem is about the model; that the model has all of Rust's panic sites (index, slice, unwrap, usize subtraction) "
     "is established by reading and by this stream",
     "text = list of Unicode scalar values; the model's recursion is structural or fuelled by the input list",
     "1 MB relative-name tokens are generated only in files without $ORIGIN (NameModel.from_relative_dotted_string is "
     "quadratic in the extracted model); with an origin tokens go up to 4 KB",
+    "hosts part: the extracted hosts model is quadratic in the length of a line and in the number of distinct names (and worse "
+    "beyond about 20 K characters on a line, where OCaml's minor collections keep scanning the deep stack of the non-tail-"
+    "recursive extracted functions), so a hosts case is given to the model only if no line exceeds 20000 characters and its "
+    "estimated model time (hosts_model_seconds, calibrated by measurement) is at most 3 s (quick) / 25 s (thorough) -- in effect "
+    "one line of up to 20000 characters or about 2500..5000 names, one token of up to about 10000 characters, and about 50000 "
+    "short lines in the quick tier; every case, whatever its size, is run by the real Hosts::deserialise on a 2 MiB stack, and "
+    "the cases beyond the model's budget are compared with the linear python reading of hosts(5) of vlib/p_c14.py instead "
+    "(mappings equal / file rejected) where that reading is unambiguous; the counts are in the evidence (extra.hosts)",
+    "loader part: the config model takes a file as data; a text is declared unparsable to it only after the zone-file / hosts "
+    "parser MODEL returned Err on that text (texts the parser models accept are not used here -- C12 covers valid files); "
+    "stack exhaustion is observed with the harness build profile (opt-level 1): a recursion that the optimiser turns into a "
+    "loop at that level is not a stack hazard of this build and is not reported",
+    "loader part: the harness calls load_zone_configuration on a current-thread tokio runtime inside the per-case 2 MiB thread; "
+    "no tracing subscriber is installed, so the formatting of log fields is not exercised (computing them is)",
 ]
-TRUSTED = ["per-case thread (2 MiB stack) + 60 s watchdog in harness/src/bin_zonefile.rs"]
+TRUSTED = ["per-case thread (2 MiB stack) + 60 s watchdog in harness/src/bin_zonefile.rs and harness/src/vthread.rs (hosts and config drivers)",
+           "python reading of hosts(5) in vlib/p_c14.py, used as the reference for hosts inputs beyond the model's size budget"]
 
 STRUCT = list(" \t\n\n\n\"();\\@*.$0123456789") + ["IN", "A", "SOA", "TXT", "$ORIGIN", "$INCLUDE", "example", "com.",
                                                      "1.2.3.4", "::1", "\\0", "\\00", "\\256", "\\", "\r\n"]
@@ -206,7 +242,7 @@ def kind(case, model):
 #     every case in its own 2 MiB-stack thread under the watchdog.  A text is declared unparsable ("Xg") to
 #     the config model only after the parser MODEL (zonefile P / hosts P) returned Err on it.
 
-MODEL_BUDGET_S = {"quick": 3.0, "thorough": 40.0}
+MODEL_BUDGET_S = {"quick": 3.0, "thorough": 25.0}
 MB_CHARS = {2: ["é", "ü", "ß", "Ж", "\u00a0", "\u0085"],
             3: ["中", "€", "日", "\u3000", "\u2003", "\ufeff"],
             4: ["\U0001F600", "\U00010000", "\U0002070E", "\U0010FFFF"]}
@@ -214,22 +250,32 @@ HSTRUCT = list(" \t\n\n#%.:0123456789ab") + ["1.2.3.4", "::1", "fe80::1%eth0", "
                                                "\x0c", " # ", "10.0.0.1 ", "..", "\n127.0.0.1 "]
 
 
+MODEL_MAX_LINE = 20000
+
+
 def hosts_model_seconds(text):
     """estimated run time of build/model_hosts on `text` (measured on this machine: 16 K characters on one
-    line 1.3 s, 2000 names on one line 0.5 s, 10^4 lines with 300 distinct names 1.3 s, 10^5 lines 4.7 s)"""
+    line 1.3 s -- 2.7 s if they are one name, 7 s if they are one address or a name of 8000 labels --, 2000
+    names on one line 0.5 s, 10^4 lines with 300 distinct names 1.3 s, 10^5 lines 4.7 s).  Beyond 20 K
+    characters on a line the time grows faster than the square (the non-tail-recursive extracted functions
+    make the OCaml stack deep and every minor collection scans it): such texts are never given to the model."""
     lines = text.split("\n")
-    sq = fl = names = 0
+    sq = fl = names = tsq = 0
     distinct = set()
     for l in lines:
         n = len(l)
+        if n > MODEL_MAX_LINE:
+            return float("inf")
         if n > 40:
             sq += n * n
         f = l.split("#", 1)[0].split()
         fl += len(f) * n
         names += max(0, len(f) - 1)
+        if n > 200:
+            tsq += sum(len(x) ** 2 for x in f if len(x) > 100)
         if len(distinct) < 100000:
             distinct.update(f[1:])
-    return 5e-9 * sq + 5e-8 * fl + 3e-7 * names * max(1, len(distinct)) + 5e-5 * len(lines) + 2e-7 * len(text)
+    return 5e-9 * sq + 2.5e-8 * tsq + 5e-8 * fl + 3e-7 * names * max(1, len(distinct)) + 5e-5 * len(lines) + 2e-7 * len(text)
 
 
 def text_tok(s):
@@ -338,7 +384,7 @@ def hosts_texts(rng, tier):
               "::1%é a", "1.2.3.4 " + "a" * 63 + "." + "b" * 64, "1.2.3.4 " + ("a" * 63 + ".") * 4, "1.2.3.4 " + ("a." * 127), "1.2.3.4 " + ("a." * 128)]:
         small.append(("corpus", t))
     # the long-input families at model scale
-    for scale in ((200, 2000, 500), (800, 5000, 10000)):
+    for scale in ((200, 2000, 500), (800, 5000, 10000)) + (((2000, 12000, 30000),) if tier != "quick" else ()):
         for fam, t in hosts_shapes(rng, *scale):
             small.append((fam, t))
     n = 600 if tier == "quick" else 60000
@@ -365,8 +411,7 @@ def hosts_texts(rng, tier):
         big.append(("many-names", "1.2.3.4" + " a" * 10000))
         big.append(("many-names", "1.2.3.4" + "\ta.b" * 30000))
     else:
-        for names, size, lines in ((10000, 1 << 16, 10000), (20000, 1 << 18, 50000), (50000, 1 << 20, 100000), (100000, 1 << 20, 200000),
-                                   (200000, 1 << 21, 400000), (500000, 1 << 22, 1000000)):
+        for names, size, lines in ((10000, 1 << 16, 10000), (30000, 1 << 18, 50000), (100000, 1 << 20, 100000), (300000, 1 << 20, 300000)):
             big += hosts_shapes(rng, names, size, lines)
     out = list(small)
     step = max(1, len(out) // (len(big) + 1))
@@ -406,7 +451,8 @@ def extra_hosts(ctx, fails, info):
                                                               "c17hosts-model", 12, timeout=stream_timeout)))
     th.start()
     iouts = run_all(core.impl_driver_path("hosts"), lines, ctx["run_dir"], "c17hosts-impl", 8, timeout=stream_timeout)
-    refs = {i: p_c14.read_hosts(t) for i, (_, t) in enumerate(texts) if i not in set(with_model)}
+    wm = set(with_model)
+    refs = {i: p_c14.read_hosts(t) for i, (_, t) in enumerate(texts) if i not in wm}
     th.join()
     mouts = dict(zip(with_model, box.get("m") or ["MODEL-RUN-FAILED"] * len(with_model)))
     st = {"cases": len(lines), "model_compared": 0, "reference_compared": 0, "unjudged_beyond_model_budget": 0, "disagreements": 0,
@@ -619,7 +665,14 @@ def extra_loader(ctx, fails, info):
     emptyh = type("E", (), {"content": staticmethod(lambda: "H_%-")})
     wsz = type("E", (), {"content": staticmethod(lambda: "Z-@-@_%" + " \n\t\n; c\n\n".encode().hex())})
     wsh = type("E", (), {"content": staticmethod(lambda: "H_%" + " \n\t\n# c\n\n".encode().hex())})
+    # the hosts parser under the loader: one line of 10^5 names (valid; and ended by a non-ASCII character, bad by construction --
+    # the hosts model is not asked, it is quadratic in the line)
+    manyh = cg.HostsFile([(("a",), "a", 0x01020304)])
+    many_ok = type("E", (), {"content": staticmethod(lambda: manyh.data() + "%" + ("1.2.3.4" + " a" * 100000 + "\n").encode().hex())})
+    many_bad = cg.BadFile("g", ("1.2.3.4" + " a" * 100000 + " \u00e9\n").encode())
     for tag, z, zd, a, ad, files, dirs, want in [
+            ("hosts-line-of-100000-names", [], [], ["m.hosts"], [], [("m.hosts", many_ok)], [], "some"),
+            ("hosts-line-of-100000-names-then-non-ascii", [], [], [], ["hd"], [], [("hd", [("m.hosts", many_bad)])], "none"),
             ("empty-zone", ["e.zone"], [], [], [], [("e.zone", emptyz)], [], "some"),
             ("empty-hosts", [], [], ["e.hosts"], [], [("e.hosts", emptyh)], [], "some"),
             ("empty-both-in-dirs", [], ["zd"], [], ["hd"], [], [("zd", [("a", emptyz), ("b", wsz)]), ("hd", [("a", emptyh), ("b", wsh)])], "some"),
@@ -640,11 +693,11 @@ def extra_loader(ctx, fails, info):
     iouts = run_all(core.impl_driver_path("config"), cases, ctx["run_dir"], "c17loader-impl", 8, env=env)
     dis = 0
     for c, (role, fam, want), mo, io in zip(cases, meta, mouts, iouts):
-        key = "%s %s -> %s" % (role, fam, io if len(io) < 12 else "Some")
+        key = "%s %s -> %s" % (role, fam, io.split(" ")[0] if crashed(io) or io == "None" else "Some")
         st["families"][key] = st["families"].get(key, 0) + 1
         if crashed(io):
             fails.append(core.Failure("loader-crash", "load_zone_configuration did not return on a %s (%s): %s instead of %s"
-                                      % ({"z": "bad zone file", "h": "bad hosts file", "fs": "file-system defect"}[role], fam, core.trunc(io, 80),
+                                      % ({"z": "bad zone file", "h": "bad hosts file", "fs": "file-system case"}[role], fam, core.trunc(io, 80),
                                          "None" if want == "none" else "a configuration"), c, core.trunc(io, 200), core.trunc(mo, 200)))
         elif want == "none" and io != "None":
             fails.append(core.Failure("loader-bad-file-accepted", "an unreadable / unparsable %s file (%s) did not make load_zone_configuration return None"
